@@ -32,7 +32,7 @@ theorem popS_ok {env : Env} {s s' : St} {x : SVal} (h : popS rec env s = .ok x s
         · dsimp only at h
           split at h
           · cases h; simp
-          · cases h
+          · cases h; simp
         · cases h; simp
   · rename_i x' rest hx hs
     cases h; rw [hs]; simp
@@ -50,7 +50,7 @@ theorem popS_fail (hrec : RecClean rec) {env : Env} {s : St} {a : Abort} {l : Lo
         · dsimp only at h
           split at h
           · cases h
-          · rename_i a' hres; cases h; exact hrec _ _ _ _ _ hres
+          · cases h
         · cases h
   · cases h
 
@@ -118,7 +118,7 @@ theorem popN_fail (hrec : RecClean rec) {env : Env} : ∀ {k : Nat} {s : St} {a 
         exact popN_fail hrec (by omega) h2
       · cases h
 
-theorem popEntries_ok {env : Env} : ∀ {k : Nat} {s s' : St} {es : List (Str × Val)},
+theorem popEntries_ok {env : Env} : ∀ {k : Nat} {s s' : St} {es : Option (List (Str × Val))},
     popEntries rec env k s = .ok es s' → s'.stack.length + 2 * k = s.stack.length
   | 0, s, s', es, h => by simp [popEntries] at h; obtain ⟨_, rfl⟩ := h; simp
   | k + 1, s, s', es, h => by
@@ -132,12 +132,10 @@ theorem popEntries_ok {env : Env} : ∀ {k : Nat} {s s' : St} {es : List (Str ×
         split at h
         · cases h
         · rename_i es' s3 h3
-          cases h
-          have := popV_ok h1
-          have := popV_ok h2
-          have := popEntries_ok h3
-          omega
-    · cases h
+          have l1 := popV_ok h1
+          have l2 := popV_ok h2
+          have l3 := popEntries_ok h3
+          split at h <;> (cases h; omega)
 
 theorem popEntries_fail (hrec : RecClean rec) {env : Env} : ∀ {k : Nat} {s : St} {a : Abort} {l : Log},
     2 * k ≤ s.stack.length → popEntries rec env k s = .fail a l → a.structural = false
@@ -157,8 +155,7 @@ theorem popEntries_fail (hrec : RecClean rec) {env : Env} : ∀ {k : Nat} {s : S
         split at h
         · rename_i h3; cases h
           exact popEntries_fail hrec (by omega) h3
-        · cases h
-    · cases h; rfl
+        · split at h <;> cases h
 
 theorem binop_ok {f : Val → Val → Val} {env : Env} {s s' : St} (h : binop rec f env s = .ok () s') :
     s'.stack.length + 1 = s.stack.length := by
@@ -234,10 +231,10 @@ theorem invoke_ok {env : Env} {c : Callee} {this : Val} {args : List Val} {s s' 
     · cases h
     · cases h; simp only [pushV, List.length_cons]
   · split at h
-    · cases h
+    · cases h; simp only [pushV, List.length_cons]
     · cases h; simp only [pushV, List.length_cons]
   · split at h
-    · cases h
+    · cases h; simp only [pushV, List.length_cons]
     · split at h
       · cases h; simp only [pushV, List.length_cons]
       · cases h
@@ -251,10 +248,10 @@ theorem invoke_fail (hrec : RecClean rec) {env : Env} {c : Callee} {this : Val} 
     · cases h; rfl
     · cases h
   · split at h
-    · rename_i he; cases h; exact resolveArgs_clean hrec env _ _ _ _ he
+    · cases h
     · cases h
   · split at h
-    · rename_i he; cases h; exact resolveArgs_clean hrec env _ _ _ _ he
+    · cases h
     · split at h
       · cases h
       · cases h; rfl
